@@ -18,6 +18,7 @@ from experimaestro.launcherfinder.base import TokenConfiguration
 from experimaestro.launcherfinder.registry import LauncherRegistry
 
 from .ipc import ipcom
+from .utils import verif as _verif
 from .locking import Lock, LockError
 from .scheduler.dependencies import Dependency, DependencyStatus, Resource
 import logging
@@ -109,13 +110,20 @@ class TokenFile:
         self.path = path
         logging.debug("Writing token file %s", path)
         with path.open("wt") as fp:
+            if _verif.ACTIVE:
+                _verif.emit("tok.create.open", name=path.name)
+                _verif.pause("create.opened")
             fp.write(f"{str(count)}\n{uri}\n")
+        if _verif.ACTIVE:
+            _verif.emit("tok.create.write", name=path.name, count=count)
         return self
 
     def delete(self):
         if self.path.is_file():
             logging.debug("Deleting token file %s", self.path)
             self.path.unlink()
+            if _verif.ACTIVE:
+                _verif.emit("tok.file.delete", name=self.path.name)
 
     def watch(self):
         """Watch the matching process"""
@@ -129,6 +137,8 @@ class TokenFile:
         # Watch for the job
         def run():
             logger.debug("Locking job lock path %s", lockpath)
+            if _verif.ACTIVE:
+                _verif.emit("tok.watch.start", name=self.path.name)
             process = None
             with fasteners.InterProcessLock(lockpath):
                 if not pidpath.is_file():
@@ -152,6 +162,8 @@ class TokenFile:
                 # Process is None: process has finished
                 process.wait()
 
+            if _verif.ACTIVE:
+                _verif.emit("tok.watch.reclaim", name=self.path.name)
             self.delete()
 
         threading.Thread(target=run).start()
@@ -281,6 +293,9 @@ class CounterToken(Token, FileSystemEventHandler):
                         self.available,
                     )
 
+            if _verif.ACTIVE:
+                _verif.emit("tok.evt.deleted", name=name, available=self.available)
+
             # Do not lock here (notify only)
             if self.available > 0:
                 self.aio_notify()
@@ -301,11 +316,15 @@ class CounterToken(Token, FileSystemEventHandler):
                         tokenfile = TokenFile(path)
                         tokenfile.watch()
                         self.cache[path.name] = tokenfile
+                        if _verif.ACTIVE:
+                            _verif.emit("tok.evt.cached", name=path.name, by="created")
         except FileNotFoundError:
             # We did not find the token file... just ignore
             pass
         except Exception:
             logger.exception("Uncaught exception in on_modified handler")
+            if _verif.ACTIVE:
+                _verif.emit("tok.evt.error", name=path.name, by="created")
             raise
 
     def on_modified(self, event):
@@ -351,11 +370,15 @@ class CounterToken(Token, FileSystemEventHandler):
                             tokenfile = TokenFile(path)
                             tokenfile.watch()
                             self.cache[path.name] = tokenfile
+                            if _verif.ACTIVE:
+                                _verif.emit("tok.evt.cached", name=path.name, by="modified")
                         except FileNotFoundError:
                             # Well, the file did not exist anymore...
                             pass
         except Exception:
             logger.exception("Uncaught exception in on_modified handler")
+            if _verif.ACTIVE:
+                _verif.emit("tok.evt.error", name=Path(event.src_path).name, by="modified")
             raise
 
     def dependency(self, count):
@@ -369,18 +392,27 @@ class CounterToken(Token, FileSystemEventHandler):
     def acquire(self, dependency: CounterTokenDependency):
         """Acquire requested token"""
         with self.lock, self.ipc_lock:
+            if _verif.ACTIVE:
+                _verif.emit("tok.acq.lock", name=dependency.name)
             self._update()
+            if _verif.ACTIVE:
+                _verif.emit("tok.acq.count", name=dependency.name, available=self.available)
+                _verif.pause("acquire.counted")
             if self.available < dependency.count:
                 logger.warning(
                     "Not enough available (%d available, %d requested)",
                     self.available,
                     dependency.count,
                 )
+                if _verif.ACTIVE:
+                    _verif.emit("tok.acq.fail", name=dependency.name)
                 raise LockError("No token")
 
             self.available -= dependency.count
 
             self.cache[dependency.name] = TokenFile.create(dependency)
+            if _verif.ACTIVE:
+                _verif.emit("tok.acq.ok", name=dependency.name, available=self.available)
             logger.debug(
                 "Token state [acquired %d]: available %d, taken %d",
                 dependency.count,
@@ -391,6 +423,8 @@ class CounterToken(Token, FileSystemEventHandler):
     def release(self, dependency: CounterTokenDependency):
         """Release"""
         with self.lock, self.ipc_lock:
+            if _verif.ACTIVE:
+                _verif.emit("tok.rel.lock", name=dependency.name)
             self._update()
 
             tf = self.cache.get(dependency.name, None)
@@ -400,6 +434,8 @@ class CounterToken(Token, FileSystemEventHandler):
                     dependency,
                     dependency.name,
                 )
+                if _verif.ACTIVE:
+                    _verif.emit("tok.rel.missing", name=dependency.name)
                 return
 
             logging.debug("Deleting %s from token cache", dependency.name)
@@ -407,6 +443,8 @@ class CounterToken(Token, FileSystemEventHandler):
             self.available += tf.count
             logging.debug("%s: available %d", self, self.available)
             tf.delete()
+            if _verif.ACTIVE:
+                _verif.emit("tok.rel.ok", name=dependency.name, available=self.available)
 
         self.aio_notify()
 
